@@ -24,13 +24,13 @@ NA = {
 CHECKS = {
  "C01": dict(
    category="exploration",
-   text="Receiver survival under a Byzantine wire inside a resource envelope: valid traffic of every type is corrupted by seeded byte-level and Byzantine-peer faults (cut, append/dup, flip/set, delete/insert/splice, length-head inflation, re-encoding, subtree substitution, nesting along every decoder recursion cycle) and delivered to all 31 byte-level decoding endpoints running in child processes on a 2 MiB thread stack under a budgeted counting allocator, a CPU-time envelope relative to a reference parse, scaling probes and a watchdog, with coset built with and without its std feature; every accepted value is then cloned, compared, re-encoded, dropped and handed to every helper whose documented precondition holds. The oracle is survival: no panic, abort, stack overflow, budget breach, super-linear cost or hang; violations that need earlier calls in the same process are reported with a history replay. Exploration (sampled), which is the right level for an all-byte-strings property whose failures need faults and environment limits to line up.",
+   text="Receiver survival under a Byzantine wire inside a resource envelope: valid traffic of every type is corrupted by seeded byte-level and Byzantine-peer faults (cut, append/dup, flip/set, delete/insert/splice, length-head inflation, re-encoding, subtree substitution, nesting along every decoder recursion cycle) and delivered to all 31 byte-level decoding endpoints running in child processes on a 2 MiB thread stack under a budgeted counting allocator, a CPU-time envelope relative to a reference parse, scaling probes and a watchdog, with coset built with and without its std feature; every accepted value is then cloned, compared (with its clone, with hand-modified copies and with nearly equal accepted values), re-encoded, dropped and handed to every helper whose documented precondition holds, the caller's callback itself using the library again before it returns (re-entrancy). The oracle is survival: no panic, abort, stack overflow, budget breach, super-linear cost or hang; violations that need earlier calls in the same process are reported with a history replay. Exploration (sampled), which is the right level for an all-byte-strings property whose failures need faults and environment limits to line up.",
    design_ref="DESIGN.md 5.1, 7, Appendix D",
    note="Samples the neighbourhood of valid traffic and the nesting axes, not all byte strings. 'Ordinary thread stack' is fixed as Rust's 2 MiB default for spawned threads with release-profile code generation; allocation budgets are linear in input length with constants >= 4x the measured worst legitimate case. Crypto closures are stubs.",
    technique="deterministic simulation with fault injection: seeded wire faults + environment envelope (stack, allocator budget, watchdog) on child-process nodes, replay + minimisation"),
  "C06": dict(
    category="exploration",
-   text="Sender histories -> wire -> receiver: seeded histories over all public methods of the nine creating builders (embedded/detached, fallible/infallible, nested recipients) with a recording crypto stub that can fail on command; the built message is encoded, passed through a wire that applies region-targeted tampering, decoded, and verified/decrypted under equal and perturbed AAD/payload. A reference model tracks the covered tuple at every create event; invariants I1-I6 (stored value, same bytes iff same tuple over all pairs of log entries, result pass-through, failing creator, no panic, wire fidelity: the encoded message carries exactly what the builder was given) are checked; the receiver also verifies a clone, a second encode+decode hop and the documented edit-after-decode. Exploration over histories and fault sequences.",
+   text="Sender histories -> wire -> receiver: seeded histories over all public methods of the nine creating builders (embedded/detached, fallible/infallible, nested recipients) with a recording crypto stub that can fail on command and that uses the library itself while it runs; histories include blocks of up to 70 000 signers; the built message is encoded, passed through a wire that applies region-targeted tampering, decoded, and verified/decrypted under equal and perturbed AAD/payload. A reference model tracks the covered tuple at every create event; invariants I1-I6 (stored value, same bytes iff same tuple over all pairs of log entries, result pass-through, failing creator, no panic, wire fidelity: the encoded message carries exactly what the builder was given) are checked; the receiver also verifies a clone, a second encode+decode hop and the documented edit-after-decode. Exploration over histories and fault sequences.",
    design_ref="DESIGN.md 5.2",
    note="Both sides are coset, so a deviation applied identically to creator and verifier is invisible (that is C03-C05, not claimed). Palettes bound the argument space. Crypto is a stub returning unique tokens.",
    technique="deterministic simulation with fault injection: seeded builder histories, failing-dependency and wire-tamper faults, reference-model oracle, replay + minimisation"),
@@ -48,7 +48,7 @@ CHECKS = {
    technique="deterministic simulation with fault injection: exhaustive misdelivery / tag-corruption placement per simulated message"),
  "C19": dict(
    category="exploration",
-   text="Builder call histories refined against a field-map reference model: seeded histories of 0-16 calls over every public method of all 14 builders (and the five key constructors) with palettes containing empty, boundary and reserved values are executed on the real builders and on a model that applies each call's documented effect; every public field of the built value is compared, documented refusals (panics) must occur exactly when predicted. No fault dimension exists for builders; this is the conformance half of the operation-history-versus-reference-model method. Exploration over histories.",
+   text="Builder call histories refined against a field-map reference model: seeded histories of 0-16 calls over every public method of all 14 builders (and the five key constructors) with palettes containing empty, boundary and reserved values are executed on the real builders and on a model that applies each call's documented effect; every public field of the built value is compared, documented refusals (panics) must occur exactly when predicted, and the tokens returned by the stub creator functions are bound to the bytes they were handed (expected bytes computed by the model), so the built value shows what was signed, MACed or encrypted. No fault dimension exists for builders; this is the conformance half of the operation-history-versus-reference-model method. Exploration over histories.",
    design_ref="DESIGN.md 5.5, Appendix A",
    note="Model encodes the doc comments and the property statement; param(0, ..) left open; CoseKdfContext observed through its encoding; histories up to 16 calls over finite palettes.",
    technique="deterministic simulation: seeded operation histories against an executable reference model (no fault dimension), replay + minimisation"),
